@@ -81,3 +81,13 @@ func Try(fn func()) (crashed bool) {
 // NativeRepeat is the number of times a scenario whose outcome depends on Go's random map
 // iteration order is repeated natively (under the engine the order is fixed: once).
 func NativeRepeat(n int) int { return n }
+
+// NativeWait is replay choreography: natively it waits (at most d) for a signal from a hook
+// placed in the code under test, so that the schedule found by the engine is the one that
+// runs; under the engine it does nothing (the scheduler explores all interleavings).
+func NativeWait(ch <-chan struct{}, d time.Duration) {
+	select {
+	case <-ch:
+	case <-time.After(d):
+	}
+}
